@@ -110,6 +110,113 @@ def presenceLoop : List Bool → St → Py Unit × St × List Bool
     | (.ok none, s1) => (.ok (), s1, r)
     | (.error e, s1) => if isCommErr e then (.ok (), s1, r) else (.error e, s1, r)
 
+/-! ## `nfc.tag.activate(clf, target)` (src/nfc/tag/__init__.py:425-441) and the type specific
+activation code it dispatches to (tt1.py / tt1_broadcom.py, tt2.py / tt2_nxp.py, tt3.py /
+tt3_sony.py, tt4.py): which commands are sent through `clf.exchange`, which nested `clf.sense`
+calls are made, and what happens to every exception. -/
+
+/-- SEL_RES of the target a `sense_tta` answer describes -/
+def Found.selRes (f : Found) : Nat := (if f.p2p then 64 else 0) + (if f.var % 2 = 1 then 32 else 0)
+/-- first byte of SDD_RES (manufacturer code of a 7 byte NFCID1; 04h = NXP) -/
+def Found.sdd0 (f : Found) : Nat := if f.var / 2 % 2 = 1 then 8 else 4
+
+inductive TagType | tt1 | tt2 | tt3 | tt4a | tt4b
+  deriving DecidableEq, Repr, Inhabited
+
+/-- the keys of `nfc.tag.tt2_nxp.VERSION_MAP` (GET_VERSION responses of known products) -/
+def versionMap : List Bytes := [
+  [0x00, 0x04, 0x03, 0x01, 0x01, 0x00, 0x0B, 0x03], [0x00, 0x04, 0x03, 0x02, 0x01, 0x00, 0x0B, 0x03],
+  [0x00, 0x04, 0x03, 0x01, 0x01, 0x00, 0x0E, 0x03], [0x00, 0x04, 0x03, 0x02, 0x01, 0x00, 0x0E, 0x03],
+  [0x00, 0x04, 0x04, 0x01, 0x01, 0x00, 0x0B, 0x03], [0x00, 0x04, 0x04, 0x01, 0x01, 0x00, 0x0E, 0x03],
+  [0x00, 0x04, 0x04, 0x02, 0x01, 0x00, 0x0F, 0x03], [0x00, 0x04, 0x04, 0x02, 0x01, 0x00, 0x11, 0x03],
+  [0x00, 0x04, 0x04, 0x02, 0x01, 0x00, 0x13, 0x03], [0x00, 0x04, 0x04, 0x05, 0x02, 0x01, 0x13, 0x03],
+  [0x00, 0x04, 0x04, 0x05, 0x02, 0x01, 0x15, 0x03]]
+
+/-- `clf.sense(target)` with the one target whose `sel_req` is the 7 byte NFCID1 just seen
+(tt2.py:716): is the tag still there?  `self.target` becomes the target found (or None). -/
+def reSense (s : St) : R Bool :=
+  match sense [.a 7] 1 s with
+  | (.ok (some _), s1) => (.ok true, s1)
+  | (.ok none, s1) => (.ok false, s1)
+  | (.error e, s1) => (.error e, s1)
+
+/-- after a command the tag did not understand: `if clf.sense(target) is None: return`, else `k` -/
+def stillThere (s : St) (k : St → R Bool) : R Bool :=
+  match reSense s with
+  | (.error e, s1) => (.error e, s1)
+  | (.ok false, s1) => (.ok false, s1)
+  | (.ok true, s1) => k s1
+
+/-- second half of `nfc.tag.tt2_nxp.activate`: GET_VERSION (60h); `true` = a tag object was made -/
+def nxpVersion (s : St) : R Bool :=
+  match exchange s with
+  | (.ok none, s1) => (.error .type_, s1)             -- bytes(None)
+  | (.ok (some d), s1) =>
+    if d ∈ versionMap then (.ok true, s1)
+    else if d = [0] then stillThere s1 (fun s2 => (.ok true, s2))      -- NTAG203
+    else (.ok false, s1)
+  | (.error e, s1) =>
+    if e = .timeout then stillThere s1 (fun s2 => (.ok true, s2))      -- MifareUltralight
+    else if isCommErr e then (.ok false, s1)
+    else (.error e, s1)
+
+/-- `nfc.tag.tt2_nxp.activate`: AUTHENTICATE (1A 00), then GET_VERSION -/
+def nxpActivate (s : St) : R Bool :=
+  match exchange s with
+  | (.ok d, s1) =>
+    stillThere s1 (fun s2 =>
+      match d with
+      | none => (.error .attr, s2)                      -- None.startswith
+      | some d => if d.head? = some 0xAF then (.ok true, s2) else nxpVersion s2)
+  | (.error e, s1) =>
+    if e = .timeout then stillThere s1 nxpVersion
+    else if isCommErr e then (.ok false, s1)
+    else (.error e, s1)
+
+/-- `nfc.tag.tt2.activate` -/
+def tt2Activate (f : Found) (s : St) : R (Option TagType) :=
+  if f.sdd0 = 4 then
+    match nxpActivate s with
+    | (.error e, s1) => (.error e, s1)
+    | (.ok true, s1) => (.ok (some .tt2), s1)
+    | (.ok false, s1) =>
+      -- "make sure the tag is still alive"
+      (match reSense s1 with
+       | (.error e, s2) => (.error e, s2)
+       | (.ok true, s2) => (.ok (some .tt2), s2)
+       | (.ok false, s2) => (.ok none, s2))
+  else (.ok (some .tt2), s)
+
+/-- `Type4ATag.__init__` / `Type4BTag.__init__`: one command (RATS / ATTRIB); every answer with
+data is accepted -/
+def tt4Activate (t : TagType) (s : St) : R (Option TagType) :=
+  match exchange s with
+  | (.ok (some _), s1) => (.ok (some t), s1)
+  | (.ok none, s1) => (.error .type_, s1)              -- hexlify(None)
+  | (.error e, s1) => (.error e, s1)
+
+/-- the body of the `try:` in `nfc.tag.activate`: dispatch on technology, SENS_RES, SEL_RES -/
+def activateBody (f : Found) (s : St) : R (Option TagType) :=
+  if f.tech = 1 then
+    if f.sens.getD 1 0 % 16 = 12 then
+      -- tt1_broadcom.activate reads `target.rid_res[0:2]`: TypeError without RID response (open
+      -- finding; sense() asks for the RID response only when SENS_RES byte 0 says Type 1 platform);
+      -- otherwise Topaz / Topaz512 / Type1Tag, no command
+      (if f.rid.isEmpty then (.error .type_, s) else (.ok (some .tt1), s))
+    else if f.selRes / 32 % 4 = 0 then tt2Activate f s
+    else if f.selRes / 32 % 2 = 1 then tt4Activate .tt4a s
+    else (.ok none, s)
+  else if f.tech = 2 then tt4Activate .tt4b s
+  else if f.tech = 3 then (if f.p2p then (.ok none, s) else (.ok (some .tt3), s))   -- no command
+  else (.error .type_, s)     -- found by sense_dep: brty 106A without sens_res (open finding)
+
+/-- `nfc.tag.activate`: `except nfc.clf.CommunicationError: return None`.  The call itself is an
+event of the history (`act`, with the target as its "answer"; it consumes nothing of the script). -/
+def tagActivate (f : Found) (s : St) : R (Option TagType) :=
+  match activateBody f (s.emit (.call .activate (.found f))) with
+  | (.error e, s1) => if isCommErr e then (.ok none, s1) else (.error e, s1)
+  | r => r
+
 /-- default `on-discover` of the rdwr option: refuse peer-to-peer capable targets -/
 def defaultDiscover (f : Found) : Val := if f.p2p then .false_ else .true_
 
@@ -120,11 +227,10 @@ def rdwrStep (o : RdwrOpts) (ts : List Bool) (s : St) : StepOut :=
   | (.ok (some (_, f)), s1) =>
     let (dv, s2) := o.discover.run (defaultDiscover f) .rdwr .discover s1
     if !dv.truthy then (.ok .none, s2, ts) else
-    let (a, s3) := s2.ask .activate
-    match a with
-    | .ioError => (.error (.io 5), s3, ts)
-    | .kbd => (.error .keyboardInterrupt, s3, ts)
-    | .found _ =>
+    match tagActivate f s2 with
+    | (.error e, s3) => (.error e, s3, ts)
+    | (.ok none, s3) => (.ok .none, s3, ts)
+    | (.ok (some _), s3) =>
       let (cv, s4) := o.connect.run .true_ .rdwr .connect s3
       if !cv.truthy then (.ok (.obj .rdwr), s4, ts) else
       (match (if o.beep then simpleCall .ledOn s4 else (.ok (), s4)) with
@@ -138,7 +244,6 @@ def rdwrStep (o : RdwrOpts) (ts : List Bool) (s : St) : StepOut :=
            | (.ok _, s7) =>
              let (rv, s8) := o.release.run .true_ .rdwr .release s7
              (.ok (.val .rdwr rv), s8, ts1))
-    | _ => (.ok .none, s3, ts)
 
 /-- the scripted `llc.run(terminate)`: up to `n` polls of terminate, then the peer releases -/
 def runPolls : Nat → List Bool → St → St × List Bool
@@ -187,28 +292,30 @@ def cardLoop : List Bool → St → Py Unit × St × List Bool
       else if isCommErr e then cardLoop r s1
       else (.error e, s1, r)
 
+/-- `nfc.tag.emulate(clf, target)` (src/nfc/tag/__init__.py:470-478): a `Type3TagEmulation` when the
+target the driver returned carries a Type 3 Tag command (`tt3_cmd`: a `listen_ttf` activation; the
+`p2p` flag of the answer stands for "no command captured"), otherwise None - no device call -/
+def emulates (t : LtSpec) (f : Found) : Bool := t == .f && !f.p2p
+
 def cardStep (o : CardOpts) (ts : List Bool) (s : St) : StepOut :=
   match listen o.target s with
   | (.error e, s1) =>
     -- repaired (F30): a CommunicationError raised inside listen() means "no target this round"
     if isCommErr e then (.ok .none, s1, ts) else (.error e, s1, ts)
   | (.ok none, s1) => (.ok .none, s1, ts)
-  | (.ok (some _), s1) =>
+  | (.ok (some (_, f)), s1) =>
     let (dv, s2) := o.discover.run .true_ .card .discover s1
     if !dv.truthy then (.ok .none, s2, ts) else
-    let (a, s3) := s2.ask .emulate
-    match a with
-    | .ioError => (.error (.io 5), s3, ts)
-    | .kbd => (.error .keyboardInterrupt, s3, ts)
-    | .found _ =>
-      let (cv, s4) := o.connect.run .true_ .card .connect s3
-      if !cv.truthy then (.ok (.obj .card), s4, ts) else
-      (match cardLoop ts s4 with
-       | (.error e, s5, ts1) => (.error e, s5, ts1)
-       | (.ok _, s5, ts1) =>
-         let (rv, s6) := o.release.run .true_ .card .release s5
-         (.ok (.val .card rv), s6, ts1))
-    | _ => (.ok .none, s3, ts)
+    -- the call of nfc.tag.emulate is an event of the history (`emu`); it consumes nothing
+    let s3 := s2.emit (.call .emulate (.found f))
+    if !emulates o.target f then (.ok .none, s3, ts) else
+    let (cv, s4) := o.connect.run .true_ .card .connect s3
+    if !cv.truthy then (.ok (.obj .card), s4, ts) else
+    (match cardLoop ts s4 with
+     | (.error e, s5, ts1) => (.error e, s5, ts1)
+     | (.ok _, s5, ts1) =>
+       let (rv, s6) := o.release.run .true_ .card .release s5
+       (.ok (.val .card rv), s6, ts1))
 
 /-- options that survived on-startup -/
 structure Live where
